@@ -13,7 +13,8 @@ from .common import ConfiguredCrop, F, G, base_sample, cfg_simplifications, obse
 ID = "C07"
 RULE = ("Hypothesis-generated windows: start on / 1-40 days before / 1-200 days after the planting date, end after harvest / "
         "mid-season / on the planting anniversary, seasons spanning New Year, leap years, calendar-scaled and thermal crops, "
-        "explicit or computed latest harvest date, off-season on/off. An independent date-arithmetic model predicts the exact "
+        "explicit or computed latest harvest date, off-season on/off; plus enumerated boundary windows (start / end on 29 February, on "
+        "and one day around a planting date, year boundaries, partial and one-day seasons) and back-to-back year-long seasons. An independent date-arithmetic model predicts the exact "
         "sequence of simulated dates, days-after-planting and harvest days; one evaluation per simulated day. Non-trivial "
         "configuration: >=2 seasons reached, or a start strictly before the first planting date, or an end inside a season; "
         "distinct = configuration hash.")
